@@ -57,13 +57,26 @@ static void judge(const World &w, Avoid::Router *live, const vector<Avoid::ConnR
             Poly p = rect(s.x0 * S, s.y0 * S, s.x1 * S, s.y1 * S);
             if (hitsInteriorD(p, di.ps[q - 1].x, di.ps[q - 1].y, di.ps[q].x, di.ps[q].y, 1e-6)) {
                 invalid = true;
-                { int atEnds = 0; for (auto &v : p.v) { double ax = di.ps[q - 1].x, ay = di.ps[q - 1].y, bx = di.ps[q].x, by = di.ps[q].y; double cr = (bx - ax) * (v.y - ay) - (v.x - ax) * (by - ay), dt = (v.x - ax) * (bx - ax) + (v.y - ay) * (by - ay), L = (bx - ax) * (bx - ax) + (by - ay) * (by - ay); if (cr == 0 && dt > 0 && dt < L) throughVertex = true; if (cr == 0 && (dt == 0 || dt == L)) atEnds++; }
-                  if (atEnds >= 2) throughVertex = true; /* the segment is a diagonal of the shape it cuts */ }
+                { // class through_vertex: the offending segment crosses the boundary of the shape it cuts exactly at a vertex:
+                  //  (a) a vertex of ANY shape of the scene lies strictly inside the segment and on the cut shape's boundary, or
+                  //  (b) an endpoint of the segment coincides with a vertex of the cut shape (coincident corners of touching shapes, diagonals).
+                  // A segment whose two ends merely lie in the interior of sides of the cut shape is NOT in the class.
+                  double ax = di.ps[q - 1].x, ay = di.ps[q - 1].y, bx = di.ps[q].x, by = di.ps[q].y, L = (bx - ax) * (bx - ax) + (by - ay) * (by - ay);
+                  for (auto &v : p.v) { double cr = (bx - ax) * (v.y - ay) - (v.x - ax) * (by - ay), dt = (v.x - ax) * (bx - ax) + (v.y - ay) * (by - ay); if (cr == 0 && (dt == 0 || dt == L)) throughVertex = true; }
+                  for (auto &o : w.shapes) if (o.alive) { Poly po = rect(o.x0 * S, o.y0 * S, o.x1 * S, o.y1 * S); for (auto &v : po.v) { double cr = (bx - ax) * (v.y - ay) - (v.x - ax) * (by - ay), dt = (v.x - ax) * (bx - ax) + (v.y - ay) * (by - ay);
+                      bool onCutBoundary = v.x >= s.x0 * S && v.x <= s.x1 * S && v.y >= s.y0 * S && v.y <= s.y1 * S && (v.x == s.x0 * S || v.x == s.x1 * S || v.y == s.y0 * S || v.y == s.y1 * S);
+                      if (cr == 0 && dt > 0 && dt < L && onCutBoundary) throughVertex = true; } } }
             }
         }
         // is the fresh route itself valid?  (if not, a free path may not exist and nothing is demanded)
         bool freshInvalid = false; for (size_t q = 1; q < fc[k]->displayRoute().size(); q++) for (auto &s : w.shapes) if (s.alive) { Poly p = rect(s.x0 * S, s.y0 * S, s.x1 * S, s.y1 * S); const Avoid::PolyLine &fr = fc[k]->displayRoute(); if (hitsInteriorD(p, fr.ps[q - 1].x, fr.ps[q - 1].y, fr.ps[q].x, fr.ps[q].y, 1e-6)) freshInvalid = true; }
-        if (freshInvalid) { ctx.count("fresh_route_invalid_too"); continue; }
+        // Whether a free path exists is decided by the exact visibility graph (polyline); the fresh router's own
+        // validity is only a proxy and is used for orthogonal mode.  (A fresh router can be wrong too: shapes are
+        // added one after the other inside its single transaction.)
+        bool pathExists = !freshInvalid;
+        if (!ortho) { vector<Poly> sc; for (auto &sh : w.shapes) if (sh.alive) sc.push_back(rect(sh.x0, sh.y0, sh.x1, sh.y1)); VisGraph vg(sc, P{w.conns[k].x0, w.conns[k].y0}, P{w.conns[k].x1, w.conns[k].y1}); pathExists = vg.reachable(); if (freshInvalid && pathExists) ctx.count("fresh_route_invalid_although_path_exists"); }
+        if (!pathExists) { ctx.count("no_free_path"); continue; }
+        if (freshInvalid && !invalid) { ctx.count("fresh_invalid_incremental_valid"); continue; }
         if (invalid) { vector<string> kc; if (throughVertex && !ortho) kc.push_back("through_vertex"); ctx.violation("route_invalid_after_history", kc, desc, obs); continue; }
         // (ii) cost no more than from scratch
         double ci = cost(ri, ortho), cf = cost(rf, ortho);
@@ -132,10 +145,44 @@ static void phase(int nshapes, int nconns, int depth, bool ortho, bool transacti
         for (size_t e = 0; e < EPS.size(); e += epStep) { World w = w0; w.conns.push_back(EPS[e]); if (nconns == 2) w.conns.push_back(EPS[(e + 2) % EPS.size()]); vector<Op> ops; dfs(w, w, ops, depth, ortho, transactions, batch); if (ctx.stopped()) return; }
     } while (mcx::subset_next(idx, RL.size()));
 }
+// systematic depth-1 phase: EVERY pair of interior-disjoint grid rectangles, one connector, then one edit chosen from
+// {add any grid rectangle, move either shape one cell, delete either shape}
+static void grid_phase(int G, bool ortho, int epSel) {
+    // epSel >= 100: all connectors from the column left of the grid to the column right of it (rows 0..G), in ONE router
+    vector<Ep> ring; if (epSel >= 100) for (int y0 = 0; y0 <= G; y0++) for (int y1 = 0; y1 <= G; y1++) ring.push_back({-1, y0, G + 1, y1});
+    if (epSel >= 101) for (int x0 = 0; x0 <= G; x0++) for (int x1 = 0; x1 <= G; x1++) ring.push_back({x0, -1, x1, G + 1});
+    vector<Rc> all; for (int x0 = 0; x0 < G; x0++) for (int x1 = x0 + 1; x1 <= G; x1++) for (int y0 = 0; y0 < G; y0++) for (int y1 = y0 + 1; y1 <= G; y1++) all.push_back({x0, y0, x1, y1, true, false});
+    vector<Ep> eps = {{-1, -1, G + 1, G + 1}, {-1, G + 1, G + 1, -1}, {-1, G / 2, G + 1, G / 2}, {G / 2, -1, G / 2, G + 1}, {0, 0, G, G}, {0, 1, G, G - 1}};
+    ctx.phase(mcx::fmt("%s: every pair of interior-disjoint rectangles on grid %d, connector #%d, then every single edit (add any rectangle / move / delete)", ortho ? "orthogonal" : "polyline", G, epSel));
+    for (size_t a = 0; a < all.size(); a++) for (size_t b = a + 1; b < all.size(); b++) {
+        if (overlapR(all[a], all[b])) continue; if (ctx.stopped()) return;
+        if (!ctx.next()) continue;
+        World w0; w0.shapes = {all[a], all[b]}; if (epSel >= 100) w0.conns = ring; else w0.conns = {eps[epSel]};
+        ctx.sample(world_str(w0) + " then every single edit", 1);
+        // edits: the add-list of run_history is RL-indexed, so drive the router directly here
+        for (int kind = 0; kind < 3; kind++) for (size_t n = 0; n < (kind == 0 ? all.size() : kind == 1 ? 8u : 2u); n++) {
+            World w = w0; Avoid::Router *r = mk(ortho, true); vector<Avoid::ShapeRef *> sh; for (auto &s : w.shapes) sh.push_back(mk_shape(r, s));
+            vector<Avoid::ConnRef *> lc; for (auto &c : w.conns) lc.push_back(new Avoid::ConnRef(r, Avoid::ConnEnd(Avoid::Point(c.x0 * S, c.y0 * S)), Avoid::ConnEnd(Avoid::Point(c.x1 * S, c.y1 * S))));
+            string desc = mcx::fmt("%s start ", ortho ? "orthogonal" : "polyline") + world_str(w0) + " edit: ";
+            try {
+                r->processTransaction();
+                if (kind == 0) { Rc c = all[n]; c.touched = true; w.shapes.push_back(c); sh.push_back(mk_shape(r, c)); desc += mcx::fmt("add [%d,%d..%d,%d]", c.x0, c.y0, c.x1, c.y1); }
+                else if (kind == 1) { int si = n / 4, d = n % 4, dx = d == 0 ? 1 : d == 1 ? -1 : 0, dy = d == 2 ? 1 : d == 3 ? -1 : 0; r->moveShape(sh[si], dx * S, dy * S); Rc &c = w.shapes[si]; c.x0 += dx; c.x1 += dx; c.y0 += dy; c.y1 += dy; c.touched = true; desc += mcx::fmt("move(shape%d,%+d,%+d)", si, dx, dy); }
+                else { r->deleteShape(sh[n]); w.shapes[n].alive = false; desc += mcx::fmt("delete(shape%zu)", n); }
+                ctx.count("transitions"); r->processTransaction(); ctx.count("nontrivial_edits");
+                judge(w, r, lc, ortho, desc);
+                delete r;
+            } catch (vpsc::CriticalFailure &f) { ctx.library_abort(f.what(), desc); }
+        }
+        ctx.count("nontrivial"); ctx.done_case();
+    }
+}
 int main(int argc, char **argv) {
     ctx.init(argc, argv);
     bool T = ctx.thorough();
     for (int ortho = 0; ortho < 2; ortho++) { phase(2, 1, 1, ortho, true, 1, 1); phase(2, 1, 2, ortho, true, 1, 1); phase(2, 1, 2, ortho, false, 1, 2); phase(2, 1, 2, ortho, true, 2, 2); phase(3, 2, 1, ortho, true, 1, 2); }
+    grid_phase(3, false, 0); grid_phase(3, false, 1); grid_phase(3, false, 100); grid_phase(3, true, 0);
+    if (T) { grid_phase(3, false, 101); grid_phase(3, true, 100); for (int e = 0; e < 6; e++) { grid_phase(4, false, e); grid_phase(3, true, e); } grid_phase(4, true, 0); grid_phase(4, true, 2); }
     if (T) for (int ortho = 0; ortho < 2; ortho++) { phase(2, 1, 3, ortho, true, 1, 1); phase(2, 1, 3, ortho, false, 1, 2); phase(2, 1, 4, ortho, true, 2, 5); phase(3, 2, 2, ortho, true, 1, 2); phase(3, 1, 3, ortho, true, 3, 5); }
     return ctx.finish();
 }
